@@ -30,9 +30,15 @@ fn big(s: &str) -> i128 {
         v
     }
 }
+/// suite dimacs:wcnf16: the WCNF parser with 16-bit literals (a header may then declare more variables than the literal type holds)
+pub static NARROW: std::sync::atomic::AtomicBool = std::sync::atomic::AtomicBool::new(false);
+fn narrow() -> bool {
+    NARROW.load(std::sync::atomic::Ordering::Relaxed)
+}
 fn lit_max(kind: &str) -> i128 {
     match kind {
         "cnf" => i32::MAX as i128,
+        "wcnf" if narrow() => i16::MAX as i128,
         "wcnf" => isize::MAX as i128,
         _ => i16::MAX as i128,
     }
@@ -259,7 +265,8 @@ const NUMBERS: &[&str] = &[
 ];
 
 fn fmt_of(kind: &str) -> &'static Fmt {
-    FORMATS.iter().find(|f| f.name == kind).unwrap()
+    let name = if kind == "wcnf" && narrow() { "wcnf16" } else { kind };
+    FORMATS.iter().find(|f| f.name == name).unwrap()
 }
 fn clause_items(items: &[String], has_header: bool) -> Vec<String> {
     items.iter().skip(if has_header { 1 } else { 0 }).cloned().collect()
@@ -288,7 +295,7 @@ pub fn suite(kind: &'static str, prop: &str, tier: &str, seed: u64) -> Report {
     layouts.push(Layout { zero: "00", ..c.clone() });
     layouts.push(Layout { leading_zeros: 1, ..c.clone() });
     layouts.push(Layout { leading_zeros: 21, ..c.clone() });
-    for filler in [vec![""], vec!["c comment"], vec!["c"], vec!["", "c x", ""], vec!["c x", "", "c y"], vec!["  "], vec!["\t"], vec!["c 1 2 0"], vec!["cnf"]] {
+    for filler in [vec![""], vec!["c comment"], vec!["c"], vec!["", "c x", ""], vec!["c x", "", "c y"], vec!["  "], vec!["\t"], vec!["c 1 2 0"], vec!["cnf"], vec!["c 10%\r 20%"], vec!["c\r"]] {
         layouts.push(Layout { filler: filler.clone(), ..c.clone() });
         layouts.push(Layout { filler, split: 1, ..c.clone() });
     }
@@ -359,7 +366,7 @@ pub fn suite(kind: &'static str, prop: &str, tier: &str, seed: u64) -> Report {
                             }
                         }
                         if let (true, Some(w)) = (hdr_fits, expected(&d3)) {
-                            let fi = FORMATS.iter().find(|f| f.name == format!("{}_ign", kind)).unwrap();
+                            let fi = FORMATS.iter().find(|f| f.name == format!("{}_ign", if kind == "wcnf" && narrow() { "wcnf16" } else { kind })).unwrap();
                             let t = render(&d2, &c, None);
                             let o = run(fi, &t.bytes, ONE_SHOT);
                             rep.runs += 1;
@@ -440,7 +447,14 @@ pub fn suite(kind: &'static str, prop: &str, tier: &str, seed: u64) -> Report {
     }
     if all || prop == "C08" {
         // one number token replaced by something that is no number: the error is reported on that token
-        let ls = [c.clone(), Layout { split: 2, indent: "  ", filler: vec!["", "c x"], ..c.clone() }, Layout { eol: "\r\n", sep: "\t", filler: vec!["c"], split: 1, indent: "\t", ..c.clone() }];
+        // (the last two: indentation directly behind the line break, resp. behind blank lines only - no comment line in between)
+        let ls = [
+            c.clone(),
+            Layout { split: 2, indent: "  ", filler: vec!["", "c x"], ..c.clone() },
+            Layout { eol: "\r\n", sep: "\t", filler: vec!["c"], split: 1, indent: "\t", ..c.clone() },
+            Layout { split: 1, indent: "   ", ..c.clone() },
+            Layout { split: 2, indent: "\t ", filler: vec![""], ..c.clone() },
+        ];
         for (di, d) in docs.iter().enumerate() {
             if expected(d).is_none() {
                 continue;
@@ -473,7 +487,7 @@ pub fn suite(kind: &'static str, prop: &str, tier: &str, seed: u64) -> Report {
         }
     }
     rep.bound = format!(
-        "{}: {} structured documents (with and without header); C07: {} layouts (each feature alone: separators, trailing blanks, CRLF, no final newline, -0/00 terminator, leading zeros, blank and comment lines before the header, between clauses and inside split clauses, indentation; plus {} seeded combinations); C06: every number position x {} numbers around the i16/i32/i64/u64/usize boundaries; C08: every number token corrupted in 4 ways x 3 layouts; 3 read schedules each",
+        "{}: {} structured documents (with and without header); C07: {} layouts (each feature alone: separators, trailing blanks, CRLF, no final newline, -0/00 terminator, leading zeros, blank and comment lines before the header, between clauses and inside split clauses, indentation; plus {} seeded combinations); C06: every number position x {} numbers around the i16/i32/i64/u64/usize boundaries; C08: every number token corrupted in 5 ways x 5 layouts; 3 read schedules each",
         kind,
         docs.len(),
         layouts.len(),
